@@ -245,7 +245,7 @@ def write_evidence_file(pid, tier, seed, mod, out, known_hits, unknown, reports,
         schedules.update(a["schedules"])
         steps += a["steps"]
         for k, v in a["probes"].items():
-            probes[k] = probes.get(k, 0) + v
+            probes[k] = max(probes.get(k, 0), v) if k.startswith("max_") else probes.get(k, 0) + v
         for k, v in a["faults"].items():
             faults[k] = faults.get(k, 0) + v
         if a["samples"] and len(samples) < 4:
